@@ -12,6 +12,10 @@ the encoder model (`Wire.emitMessage`), exactly as the harness decodes it with t
                              decoded message's (question = original bytes), for a request that advertised
                              EDNS payload `adv` (`-` = no EDNS): `ok <hex>` / `err`.
   rt   <hex>                 `from_vec` → `to_vec` → `from_vec`: `ok <dump of the second decode>`.
+  respb <how> <udp|tcp> <adv|-> <hex>   `resp` through the other builder entry points (`responseOf`).
+  badrec <kind> <sec> <nb> <na> <mode>  a message built from values with one unencodable record (`badMessage`),
+                             under a limit (`L<n>`) or through `MessageResponse::encode` (`udp:<adv>` / `tcp:<adv>`).
+  ednsrc / svcbenc / tsnew / undec / rtok : see the arms below.
 -/
 import HickoryVerif.Drv.C01
 import HickoryVerif.Drv.EncScript
@@ -33,6 +37,82 @@ def questionBytes (buf : Bytes) (m : Message) : Option Bytes :=
   match Rd.run (Wire.readHeader >>= fun (_, c) => Wire.readQueries c.qd []) buf 0 with
   | .ok (_, p) => if m.queries.isEmpty then none else some ((buf.drop 12).take (p - 12))
   | _ => none
+
+/-- the request's EDNS as `Record::read` + `Edns::from` see it: payload clamped to ≥ 512 -/
+def parseAdv (adv : String) : Option (Option Edns) :=
+  if adv == "-" then some none else
+    adv.toNat?.map fun p => some { rcodeHigh := 0, version := 0, dnssecOk := false, z := 0,
+                                    maxPayload := max p 512, options := [] }
+
+def parseProto : String → Option Proto
+  | "udp" => some Proto.udp
+  | "tcp" => some Proto.other
+  | _ => none
+
+/-- The `MessageResponse` the builder variant `how` makes of the message `m` (harness:
+`run_resp_bytes`): `std` / `new` / `edns` / `soa` differ only in the call that hands over the same
+parts; `noq…` = `MessageResponseBuilder::no_queries` (no question section); `…norec` =
+`build_no_records`; `…errmsg` = `error_msg(request metadata, code)` — `Metadata::response_from_request`
+of the request the harness makes (same id and RD, a standard query), then the response code. -/
+def responseOf (how : String) (code : Nat) (m : Message) (q : Option Bytes) (reqEdns : Option Edns) : Response :=
+  let noq := how.startsWith "noq"
+  let norec := how.endsWith "norec" || how.endsWith "errmsg"
+  let md : Metadata := if how.endsWith "errmsg" then
+      { id := m.md.id, qr := true, op := 0, aa := false, tc := false, rd := m.md.rd, ra := false, ad := false,
+        cd := false, rcode := code }
+    else m.md
+  { md := md, queries := if noq then none else q,
+    answers := if norec then [] else m.answers,
+    authorities := if norec then [] else m.authorities,
+    additionals := if norec then [] else m.additionals,
+    signature := m.signature, edns := responseEdns reqEdns }
+
+def asciiBytes (s : String) : Bytes := s.toUTF8.toList.map (·.toNat)
+
+def nameOf (labels : List String) (fqdn : Bool := true) : Name :=
+  { labels := labels.map asciiBytes, fqdn := fqdn }
+
+/-- the message of a `badrec` line (harness: `bad_message`) -/
+def badMessage (kind sec : String) (nb na : Nat) : Option Message := do
+  let good (i : Nat) : Record :=
+    { name := nameOf ["g" ++ toString i, "example"], rtype := 1, cls := 1, ttl := 60, rdata := .a [192, 0, 2, i % 256] }
+  let long : Bytes := List.replicate 256 120
+  let md : Metadata := { id := 16962, qr := true, op := 0, aa := false, tc := false, rd := false, ra := false,
+                         ad := false, cd := false, rcode := 0 }
+  let q : Query := { name := nameOf ["example"], qtype := 1, qclass := 1 }
+  if sec == "sig" then
+    let (time, mac, other) ← (match kind with
+      | "tsigtime" => some (281474976710656, 4, 0)
+      | "tsigmac" => some (1, 65536, 0)
+      | "tsigother" => some (1, 4, 65536)
+      | "good" => some (281474976710655, 4, 0)
+      | _ => none)
+    let sig : Record :=
+      { name := nameOf ["key", "example"], rtype := 250, cls := 255, ttl := 0,
+        rdata := .tsig (nameOf ["hmac-sha256"] false) time 300 (List.replicate mac 171) 16962 0 (List.replicate other 205) }
+    pure { md := md, queries := [q], answers := (List.range (nb + na)).map good, authorities := [],
+           additionals := [], signature := some sig, edns := none }
+  else
+    let (t, bad) ← (match kind with
+      | "good" => some (1, RData.a [203, 0, 113, 1])
+      | "txt256" => some (16, RData.txt [asciiBytes "ok", long])
+      | "hinfo256" => some (13, RData.hinfo long (asciiBytes "os"))
+      | "naptr256" => some (35, RData.naptr 1 2 (asciiBytes "U") long [] (nameOf ["r", "example"]))
+      | "caatag256" => some (257, RData.caa false 0 (List.replicate 256 116) [59])
+      | "svcborder" => some (64, RData.svcb 1 (nameOf ["t", "example"]) [(3, .port 443), (1, .alpn [[104, 50]])])
+      | "alpn0" => some (64, RData.svcb 1 (nameOf ["t", "example"]) [(1, .alpn [])])
+      | "mandatory0" => some (64, RData.svcb 1 (nameOf ["t", "example"]) [(0, .mandatory [])])
+      | _ => none)
+    let recs := (List.range nb).map good ++
+      [{ name := nameOf ["bad", "example"], rtype := t, cls := 1, ttl := 60, rdata := bad }] ++
+      (List.range na).map fun i => good (nb + i)
+    let m0 : Message := { md := md, queries := [q], answers := [], authorities := [], additionals := [],
+                          signature := none, edns := none }
+    match sec with
+    | "an" => pure { m0 with answers := recs }
+    | "ns" => pure { m0 with authorities := recs }
+    | "ar" => pure { m0 with additionals := recs }
+    | _ => none
 
 def handle (toks : List String) : Option String :=
   match toks with
@@ -65,16 +145,27 @@ def handle (toks : List String) : Option String :=
     | .panic s => pure ("panic " ++ s)
   -- a response whose Edns value carries `stale` as rcode_high while the message's response code is
   -- (high, low): `emit_message_parts` overwrites it (`set_rcode_high(response_code.high())`)
-  | ["ednsrc", _via, low, high, stale, version, dok, z, payload] => do
+  -- via `n`: no Edns value at all (the high bits are dropped).  `E:` = `impl BinEncodable for Edns`, the
+  -- second encoder of the OPT record (the value's OWN rcode_high, i.e. `stale`)
+  | ["ednsrc", via, low, high, stale, version, dok, z, payload] => do
     let low ← low.toNat?; let high ← high.toNat?; let stale ← stale.toNat?; let version ← version.toNat?
     let z ← z.toNat?; let payload ← payload.toNat?
+    let ed : Edns := { rcodeHigh := stale, version := version, dnssecOk := dok == "1", z := z,
+                       maxPayload := max payload 512, options := [] }
     let m : Message :=
       { md := { id := 4369, qr := true, op := 0, aa := false, tc := false, rd := false, ra := false, ad := false,
                 cd := false, rcode := high * 16 + low }
         queries := [], answers := [], authorities := [], additionals := [], signature := none
-        edns := some { rcodeHigh := stale, version := version, dnssecOk := dok == "1", z := z,
-                       maxPayload := max payload 512, options := [] } }
-    pure (showLimited true (emitLimited m 65535))
+        edns := if via == "n" then none else some ed }
+    let direct := if via == "n" then "-" else
+      match emitRecord (recordOfEdns ed) (Enc.new []) with
+      | .ok _ e => toHex e.buf
+      | .err _ _ => "err"
+      | .panic s => "panic " ++ s
+    match emitLimited m 65535 with
+    | .ok bs => pure ("ok " ++ toHex bs ++ " E:" ++ direct)
+    | .err => pure "err"
+    | .panic _ => pure "panic"
   | ["undec", hex] => do
     let buf ← parseHex hex
     match decode buf with
@@ -88,19 +179,42 @@ def handle (toks : List String) : Option String :=
     | .panic s => pure ("panic " ++ s)
   | ["resp", proto, adv, hex] => do
     let buf ← parseHex hex
-    -- the request's EDNS as `Record::read` + `Edns::from` see it: payload clamped to ≥ 512
-    let reqEdns : Option Edns ← (if adv == "-" then some none else
-      adv.toNat?.map fun p => some { rcodeHigh := 0, version := 0, dnssecOk := false, z := 0,
-                                      maxPayload := max p 512, options := [] })
-    let p ← (match proto with | "udp" => some Proto.udp | "tcp" => some Proto.other | _ => none)
+    let reqEdns ← parseAdv adv
+    let p ← parseProto proto
     match decode buf with
     | .ok (m, _) =>
       if !m.emitModelled then pure "unmodelled" else
-      let r : Response :=
-        { md := m.md, queries := questionBytes buf m, answers := m.answers, authorities := m.authorities,
-          additionals := m.additionals, signature := m.signature, edns := responseEdns reqEdns }
-      pure (showLimited true (encodeResponse r p))
+      pure (showLimited true (encodeResponse (responseOf "std" 0 m (questionBytes buf m) reqEdns) p))
     | _ => pure "undecodable"
+  -- the other public ways to put a `MessageResponse` together (see `responseOf`)
+  | ["respb", how, proto, adv, hex] => do
+    let buf ← parseHex hex
+    let reqEdns ← parseAdv adv
+    let p ← parseProto proto
+    let (base, code) ← (match how.splitOn ":" with
+      | [b] => some (b, 0)
+      | [b, c] => c.toNat?.map fun c => (b, c)
+      | _ => none)
+    match decode buf with
+    | .ok (m, _) =>
+      if !m.emitModelled then pure "unmodelled" else
+      pure (showLimited true (encodeResponse (responseOf base code m (questionBytes buf m) reqEdns) p))
+    | _ => pure "undecodable"
+  -- a message built from values, one of whose records cannot be encoded
+  | ["badrec", kind, sec, nb, na, mode] => do
+    let nb ← nb.toNat?; let na ← na.toNat?
+    let m ← badMessage kind sec nb na
+    if mode.startsWith "L" then
+      let l ← (mode.drop 1).toNat?
+      pure (showLimited true (emitLimited m l))
+    else
+      match mode.splitOn ":" with
+      | [proto, adv] =>
+        let reqEdns ← parseAdv adv
+        let p ← parseProto proto
+        let q : Bytes := [7, 101, 120, 97, 109, 112, 108, 101, 0, 0, 1, 0, 1]
+        pure (showLimited true (encodeResponse (responseOf "std" 0 m (some q) reqEdns) p))
+      | _ => none
   | [kind, hex] => do
     if kind != "rt" && kind != "rtok" then none
     let buf ← parseHex hex
